@@ -137,7 +137,9 @@ mod harnesses {
                 let r = tari_bulletproofs_plus::verif_hooks::nonce(&seed, $label, $j, $k);
                 assert!(r.is_ok());
                 unsafe {
-                    assert!(FREED >= 1);
+                    // an implementation that keeps the key on the stack releases nothing: then there is nothing to inspect (the stub's
+                    // engagement is witnessed by the twin harness witness_plain_vec_is_dirty), so FREED is a coverage fact, not a requirement
+                    kani::cover!(FREED >= 1);
                     assert!(DIRTY == 0);
                 }
             }
